@@ -259,8 +259,31 @@ namespace Factory
 
 /-! ### the factory -/
 
+/-- at most one slot has the key pending: two slots with it are one slot -/
+theorem pendCount_unique {pool : List WP} {k : Nat} (h : pendCount k pool ≤ 1) {p1 p2 : WP}
+    (h1 : p1 ∈ pool) (h2 : p2 ∈ pool) (hk1 : p1.hasPendingKey k = true) (hk2 : p2.hasPendingKey k = true) : p1 = p2 := by
+  induction pool with
+  | nil => cases h1
+  | cons x xs ih =>
+    simp only [pendCount, List.countP_cons] at h ih
+    cases h1 with
+    | head =>
+      cases h2 with
+      | head => rfl
+      | tail _ h2' =>
+        have : 0 < xs.countP (·.hasPendingKey k) := List.countP_pos_iff.mpr ⟨p2, h2', hk2⟩
+        simp only [hk1, if_true] at h; omega
+    | tail _ h1' =>
+      cases h2 with
+      | head =>
+        have : 0 < xs.countP (·.hasPendingKey k) := List.countP_pos_iff.mpr ⟨p1, h1', hk1⟩
+        simp only [hk2, if_true] at h; omega
+      | tail _ h2' =>
+        exact ih (by split at h <;> omega) h1' h2'
+
+/-- the routers that keep a key with the slot that has it pending: key-persistent, and (since the F13 fix) sticky -/
 structure AffInv (w : W) : Prop where
-  kp : w.cfg.router = .kp
+  kp : w.cfg.router = .kp ∨ w.cfg.router = .sq
   nodup : NodupW w.pool
   aff : Aff w.pool
 
@@ -270,17 +293,45 @@ theorem AffInv.of_pool {w w' : W} (h : AffInv w) (hc : w'.cfg = w.cfg) (hp : w'.
 theorem AffInv.of_routerFrame {w w' : W} (h : AffInv w) (f : RouterFrame w w') : AffInv w' :=
   h.of_pool f.cfg f.pool
 
-theorem kp_choose_spec (w : W) (j : Job) (hint : Option Nat) (wid : Nat) (hr : w.cfg.router = .kp)
+theorem kp_choose_spec (w : W) (j : Job) (hint : Option Nat) (wid : Nat) (hr : w.cfg.router = .kp ∨ w.cfg.router = .sq)
+    (hn : NodupW w.pool) (haff : Aff w.pool)
     (h : (w.chooseTargetWorker j hint).1 = some wid) :
     (∃ p0, w.pool.find? (·.hasPendingKey j.key) = some p0 ∧ p0.wid = wid) ∨
     w.pool.find? (·.hasPendingKey j.key) = none := by
   unfold W.chooseTargetWorker at h
-  simp only [hr] at h
-  cases hf : w.pool.find? (·.hasPendingKey j.key) with
-  | none => exact Or.inr rfl
-  | some p0 =>
-    simp only [hf, Option.some.injEq] at h
-    exact Or.inl ⟨p0, rfl, h⟩
+  rcases hr with hr | hr
+  · simp only [hr] at h
+    cases hf : w.pool.find? (·.hasPendingKey j.key) with
+    | none => exact Or.inr rfl
+    | some p0 =>
+      simp only [hf, Option.some.injEq] at h
+      exact Or.inl ⟨p0, rfl, h⟩
+  · simp only [hr] at h
+    cases hf : w.pool.find? (·.hasPendingKey j.key) with
+    | none => exact Or.inr rfl
+    | some p0 =>
+      left
+      refine ⟨p0, rfl, ?_⟩
+      have hp0m : p0 ∈ w.pool := List.mem_of_find?_eq_some hf
+      have hp0k : p0.hasPendingKey j.key = true := by have := List.find?_some hf; exact this
+      split at h
+      · -- the hinted slot has the key pending: it is the one slot that has
+        rename_i hh
+        simp only at h
+        subst h
+        unfold hintPending at hh
+        simp only at hh
+        cases hg : getW w.pool wid with
+        | none => rw [hg] at hh; cases hh
+        | some p =>
+          rw [hg] at hh
+          have hpm : p ∈ w.pool := List.mem_of_find?_eq_some hg
+          have := pendCount_unique (haff j.key) hp0m hpm hp0k hh
+          rw [this]
+          have hw := List.find?_some hg
+          simpa using hw
+      · simp only [hf, Option.some.injEq] at h
+        exact h
 
 theorem pendCount_zero_of_find_none {pool : List WP} {k : Nat} (h : pool.find? (·.hasPendingKey k) = none) :
     pendCount k pool = 0 := by
@@ -314,7 +365,7 @@ theorem affInv_routeInner (w : W) (j : Job) (hint : Option Nat) (h : AffInv w) :
         show pendCount k (setW w1.pool wid (p.enqueueJob w1.env j).1) ≤ 1
         by_cases hk : k = j.key
         · subst hk
-          rcases hspec wid h.kp rfl with ⟨p0, hf, hw0⟩ | hnone
+          rcases hspec wid h.kp h.nodup h.aff rfl with ⟨p0, hf, hw0⟩ | hnone
           · -- the key is already pending somewhere: that slot is the target
             have hmem : p0 ∈ w1.pool := by rw [hs.pool]; exact List.mem_of_find?_eq_some hf
             have hget := getW_of_mem_nodup hmem h1.nodup
@@ -821,7 +872,7 @@ theorem affInv_runSteps (w : W) (steps : List Step) (h : AffInv w) : AffInv (w.r
   | nil => exact h
   | cons s rest ih => exact ih _ (affInv_stepOp w s.op s.t0 s.tq s.te h)
 
-theorem affInv_init (c : CaseCfg) (hr : c.cfg.router = .kp) : AffInv (init c) := by
+theorem affInv_init (c : CaseCfg) (hr : c.cfg.router = .kp ∨ c.cfg.router = .sq) : AffInv (init c) := by
   unfold init
   simp only
   refine AffInv.of_pool (w := W.growPool _ c.n) ?_ rfl rfl
